@@ -2,7 +2,9 @@
 (a) proof obligations: Props/C15.v (single-stage pathwise theorem on the simulator model);
 (b) exact, deterministic correspondence: on generated single-stage instances the IMPLEMENTATION's trajectory satisfies the
     pathwise identities of the theorem (IL_t = S - demand of the last L periods, on-order = that demand, cost = newsvendor
-    cost function at it) and equals the Coq run of the theorem's network NW1;
+    cost function at it, with L = order lead time + shipment lead time) and equals the Coq run of the theorem's network NW1 (of the general
+    simulator model when the order lead time is positive); serial systems handled as objects (arbitrary labels / node-list order): conversion of
+    echelon to local levels vs the formula, ssm_serial's network= entry points leave the caller's network unchanged, same object simulated afterwards;
 (c) statistical SEARCH (not proof): long simulations vs newsvendor / (s,S) / SSM analytical costs, batch-means band."""
 import math, warnings
 from fractions import Fraction
@@ -385,7 +387,7 @@ def serial_object_oracle(c):
     net = serial_build(c)
     listing = 'upstream-first' if [n.index for n in net.nodes] == chain else 'not-upstream-first'
     shape = 'N=%s|node-list-%s' % (N if N < 3 else '>=3', listing)
-    fp0 = serial_fingerprint(net)
+    fp0 = serial_fingerprint(net); modified = None
     canon = dict(num_nodes=N, echelon_holding_cost={N - k: c['he'][k] for k in range(N)}, lead_time={N - k: c['L'][k] for k in range(N)}, stockout_cost=c['p'])
     # (1) the analytical entry points with the network given as an object: value as with the canonical parameters, caller's object untouched
     for api in c.get('calls') or []:
@@ -414,19 +416,20 @@ def serial_object_oracle(c):
             bad.append(("ssm_serial.%s(network=)|modifies-the-caller's-network" % api,
                         'network labelled %s (upstream first): after %s(network=net) the caller\'s object reads (label, predecessors, successors, h, echelon h, L, p, demand, level, registered) = %r, before the call %r'
                         % (chain, api, fp1, fp0)))
-            break
-    # (2) conversion of the echelon levels against the formula, on the same object
+            modified = api; break
+    # (2) conversion of the echelon levels against the formula, on the same object (on a fresh one if (1) found the object modified: the conversion
+    # is then judged on its own, and the modified object goes on to (3))
     want_loc, s_minus = local_levels_formula(chain, S)
-    got_loc = None
+    got_loc = None; cnet = net if modified is None else serial_build(c)
     try:
-        S_in = dict(S); got_loc = echelon_to_local_base_stock_levels(net, S_in)
+        S_in = dict(S); got_loc = echelon_to_local_base_stock_levels(cnet, S_in)
         if S_in != S:
             bad.append(('echelon_to_local_base_stock_levels|modifies-its-argument', 'the dict of echelon levels %r reads %r after the call' % (S, S_in)))
         if sorted(got_loc) != sorted(want_loc) or any(F(got_loc[k]) != want_loc[k] for k in want_loc):
             bad.append(('echelon_to_local_base_stock_levels|%s' % shape,
                         'chain %s (upstream first), node list %s, echelon levels %r: local levels %r but S-minus_j - S-minus_successor gives %r'
                         % (chain, [n.index for n in net.nodes], S, jsonable(got_loc), jsonable(want_loc))))
-        back = local_to_echelon_base_stock_levels(net, dict(got_loc))
+        back = local_to_echelon_base_stock_levels(cnet, dict(got_loc))
         if any(F(back[k]) != s_minus[k] for k in s_minus):
             bad.append(('local_to_echelon_base_stock_levels|round-trip|%s' % shape,
                         'chain %s, node list %s, echelon levels %r -> local %r -> echelon %r, expected the S-minus levels %r'
@@ -437,6 +440,7 @@ def serial_object_oracle(c):
     if c.get('T') and got_loc is not None:
         try:
             twin = serial_build(c)
+            if modified is not None: got_loc = echelon_to_local_base_stock_levels(net, dict(S))       # what the caller's script would do next
             for lab in chain:
                 net.nodes_by_index[lab].inventory_policy.base_stock_level = float(got_loc[lab])
                 twin.nodes_by_index[lab].inventory_policy.base_stock_level = float(want_loc[lab])
@@ -506,6 +510,12 @@ def demand_source_stream(chk, n):
     def describe(d, L):
         dist = d.lead_time_demand_distribution(L)
         return [float(dist.mean()), float(dist.std()), float(dist.cdf(dist.mean())), float(dist.ppf(0.9))]
+    fresh_seen = {}
+    def describe_fresh(state, L):
+        # a fresh object is a function of its attributes only: evaluate each (attributes, L) once (the numerical moments of sums of uniforms are slow)
+        key = repr((sorted(state.items()), L))
+        if key not in fresh_seen: fresh_seen[key] = describe(fresh(state), L)
+        return fresh_seen[key]
     for _ in range(n):
         state = {}; obj = DemandSource(); ops = []
         for step in range(rng.randint(3, 8)):
@@ -521,7 +531,7 @@ def demand_source_stream(chk, n):
             L = rng.choice([1, 2, 3])
             case = dict(stream='demand-source', ops=jsonable(ops), L=L)
             try:
-                a_ = describe(obj, L); b_ = describe(fresh(state), L)
+                a_ = describe(obj, L); b_ = describe_fresh(state, L)
             except Exception as e:
                 chk.fail('DemandSource.lead_time_demand_distribution|raises-%s' % exc_kind(e), '%s: %s' % (type(e).__name__, str(e)[:200]), case); break
             if a_ != b_:
